@@ -28,6 +28,7 @@ DECIDED = [
     "ID-2 new_id() changes the id and nothing else (the copy keeps every other attribute of the original, the name included)",
     "LEAF-1 export_leaf clones with keep_id=True, the chain Sections with children=False, and adds cloned Properties only",
     "ALIAS-3 the values getter returns a fresh list with inner lists copied; value mutators store converted values only",
+    "RET-1 (C05) the dtype converters build their results: the value lists the copy gets from the values setter share no inner list with the caller's input",
     "FWD-2 TemplateHandler.clone_section forwards children and keep_id",
 ]
 NOT_DECIDED = ["clone() == original (deep, value level equality)", "independence of foreign objects stored as attribute values",
@@ -269,6 +270,11 @@ def run(prog, rep):
         rep.check(not other, "ID-2", "%s.new_id writes _id only" % cname, "%d write(s), all to self._id" % len(ws),
                   "%s.new_id also writes %s: clone() (which calls new_id on the copy) no longer returns an equal copy" % (cname, other), f.where,
                   witness="clone() of a Section that was created without a name: the copy has another name")
+
+    from ..report import import_verdicts
+    import_verdicts(prog, rep, "C05", ("RET-1",), "RET-1",
+                    "clone() hands the stored values to the values setter of the copy, which converts every element with dtypes.get: a converter "
+                    "that returns its argument makes copy and original share the inner lists of tuple values")
 
     # ----------------------------------------------------------------- LEAF-1
     rep.rule("LEAF-1", "Section.export_leaf: every clone call passes keep_id=True; the Section clones pass children=False; "
